@@ -174,6 +174,19 @@ impl Sandbox {
     }
 }
 
+fn big_header() -> String {
+    let mut h = String::from("# ");
+    h.push_str(&"a".repeat(8191 - 2));
+    h.push('\u{e9}'); // bytes 8191..8193
+    h.push('\n');
+    let l = h.len();
+    h.push_str("# ");
+    h.push_str(&"b".repeat(16383 - l - 2));
+    h.push('\u{20ac}'); // bytes 16383..16386
+    h.push('\n');
+    h
+}
+
 fn show_err(e: &ResourceManagerError) -> String {
     match e {
         ResourceManagerError::Io(e) => match e.kind() {
@@ -296,7 +309,13 @@ fn run(payload: &str) -> String {
         let p: Vec<&str> = op.split(':').collect();
         let o: String = match p.as_slice() {
             ["w", path, res] => match (hex_str(path), render_res(res)) {
-                (Some(path), Some(src)) => (if sb.write(&path, src.as_bytes()) { "ok" } else { "fs-error" }).into(),
+                (Some(path), Some(src)) => {
+                    // every other description is rendered as a LARGE file: two leading comment lines (skipped by the
+                    // runtime parser, so the resource is the same) place a 2-byte and a 3-byte character across the
+                    // 8192- and 16384-byte marks, where a chunked reader would split them
+                    let src = if res.len() % 2 == 1 { format!("{}{}", big_header(), src) } else { src };
+                    (if sb.write(&path, src.as_bytes()) { "ok" } else { "fs-error" }).into()
+                }
                 _ => "bad-op".into(),
             },
             ["bad", path] => match hex_str(path) {
